@@ -168,6 +168,9 @@ def enc_sa(p):
             attrs = b''
             if t.get('keylen'):
                 attrs = struct.pack('>HH', 0x8000 | 14, t['keylen'])
+            # further TV attributes (RFC 7296 3.3.5 leaves room for them; 16384-32767 are private use), before and/or behind Key Length
+            attrs = b''.join(struct.pack('>HH', 0x8000 | a_, v_) for a_, v_ in t.get('tv_before', ())) + attrs + \
+                b''.join(struct.pack('>HH', 0x8000 | a_, v_) for a_, v_ in t.get('tv_after', ()))
             tb += struct.pack('>BBHBBH', 0 if j == len(pr['transforms']) - 1 else 3, 0, 8 + len(attrs), t['type'], 0, t['id'])
             tb += attrs
         out += struct.pack('>BBHBBBB', 0 if i == len(props) - 1 else 2, 0, 8 + len(pr['spi']) + len(tb), pr['num'],
